@@ -16,6 +16,7 @@ import pickle
 import select
 import struct
 import time
+import zlib
 import numpy as np
 from harness import coqio, gen
 from harness.core import exc_kind
@@ -52,7 +53,14 @@ RULE = ('histories (3-8 steps quick, 3-17 thorough) of public API calls and USER
         'samples as left by a pre-filter with remove_edges=True (2 / 5 / 12 / a filter half-length on each side), int64 / int16 counts, float32, '
         'read-only arrays (the clean-room copy is writable: a call that tries to write into the caller\'s array raises in the history and '
         'returns in the clean room); the find_extrema_kwargs dictionaries include non-default `pad` (False / explicit True), `boundary` and '
-        '`first_extrema` entries, and the dictionary used by the fixed call kinds gets `pad` / `boundary` variants per history. non-trivial = a history in which a call the property '
+        '`first_extrema` entries, and the dictionary used by the fixed call kinds gets `pad` / `boundary` variants per history. '
+        'Values of the recording, drawn per history (about 45 %% of the histories; the refill buffer and the 2-D / 3-D arrays follow): '
+        'plateaus (the value held for 3 - 6 band periods, at the start / the end / inside), blanked segments (exactly 0.0 for as long), '
+        'clipped tops and bottoms (flat at a quantile) and signals quantised to 4 / 8 / 16 levels, so that branches for constant '
+        'stretches (no extremum, no crossing, empty half-wave) are reached. Allocation history: before every call the history '
+        'process, and before its one call every clean-room child, allocates, fills with random numbers (different seeds) and '
+        'frees ~250 float arrays of every size class up to the signal length (and a few longer ones), so that memory the '
+        'library obtains without initialising it holds different values in the two processes. non-trivial = a history in which a call the property '
         'speaks about is compared with its clean-room reference after at least one different call or user edit')
 ASSUMPTIONS = ['per-call frame conditions and history independence of the real code are established only on the explored '
                'histories (partial)',
@@ -66,9 +74,15 @@ ASSUMPTIONS = ['per-call frame conditions and history independence of the real c
                'are compared before / after that construction (oracle), the other objects are watched from the first step on',
                'NaN edge samples: the 2-D / 3-D arrays carry them only where every flattened slice keeps them at its two ends '
                '(the library refuses interior NaN runs with an IndexError; a refusal inside its process pool can dead-lock the pool)',
+               'a result that depends on uninitialised memory (np.empty never completely written) is a dependence on the call '
+               'history of the process; it is visible only when the generated recording reaches the unwritten branch AND the '
+               'recycled memory differs between the history process and the clean-room child - the allocation churn makes the '
+               'second likely, not certain (the allocator decides which freed block is handed out)',
                'the clean-room oracle is applied to the calls C15 lists and to the object / group entry points that wrap them; '
                'results of other documented helpers are compared in the model comparison only']
-TRUST = ['harness: fork / pipe protocol of harness/props/c15.py (the parent never calls the library: guarded by pid check)']
+TRUST = ['harness: fork / pipe protocol of harness/props/c15.py (the parent never calls the library: guarded by pid check)',
+         'harness: the allocation churn of harness/props/c15.py (_churn) only allocates and frees numpy arrays of its own; it '
+         'touches no argument object (the content hashes taken before / after every call enclose it)']
 
 FIXED = ['cf_cycles', 'cf_amp', 'cf_trough', 'shape', 'burst_cycles', 'burst_amp', 'cyclepoints', 'g2d_dict', 'g2d_list',
          'g2d_none', 'g3d', 'rc_edges', 'limit_df', 'epoch_df', 'drop_samples', 'plot_summary', 'plot_cp_df', 'plot_cp_array',
@@ -100,6 +114,8 @@ FEK_CF = [None, 'fek', 'fek2', 'fek_ns', 'fek_nopad', 'fek', 'fek2', 'fek_ns', '
 # per-history variants of env['fek'] (the dictionary the fixed call kinds pass): entries merged into it
 FEKV = [None, None, None, {'pad': False}, {'pad': False}, {'pad': False, 'boundary': 0}, {'pad': True, 'boundary': 6}]
 # per-history storage of the shared signal objects
+# values of the recording (case field `sigshape`): exactly constant stretches and tie-rich recordings
+SHAPES = ['plateau', 'plateau', 'blank', 'blank', 'clip', 'quant']
 SIGV = [None] * 6 + ['nan_edges', 'nan_edges', 'nan_edges', 'int64', 'int16', 'float32', 'readonly', 'readonly']
 PEAK_TABLES = ['df_samples', 'df_shape', 'df']
 SHAPE_TABLES = ['df_shape', 'df_shape_trough', 'df', 'df_trough']
@@ -447,6 +463,10 @@ def cases(rng, tier):
                                      lambda: _gen_mut(rng, 'opt'), lambda: _gen_call(rng, 'g2d_p')])())
             steps.append(fit if rng.random() < 0.7 else _gen_call(rng, 'bg_fit'))
         add('group', steps)
+    # values of the recording, drawn last (the histories are those of earlier runs)
+    for c in out:
+        if rng.random() < 0.45:
+            c['sigshape'] = rng.choice(SHAPES)
     return out
 
 
@@ -678,6 +698,46 @@ def _stored(x, c, fs, fr):
     return x
 
 
+def _shaped(x, c, fs, fr, salt=0):
+    """the values of the recording (case field `sigshape`): stretches of >= 3 band periods that are exactly constant (the
+    value held / exactly 0.0), clipped tops and bottoms, a coarse amplitude grid."""
+    import random
+    v = c.get('sigshape')
+    x = np.array(x, dtype=float)
+    if not v:
+        return x
+    r = random.Random(c['seed'] * 31 + 7 + salt)
+    n = len(x)
+    per = fs / (0.5 * (fr[0] + fr[1]))
+    if v in ('plateau', 'blank'):
+        for _ in range(r.randint(1, 3)):
+            ln = min(n, int(np.ceil(per * r.choice([3, 4, 5, 6]))))
+            a = r.choice([0, n - ln, r.randrange(0, n - ln + 1), r.randrange(0, n - ln + 1)])
+            x[a:a + ln] = x[a] if v == 'plateau' else 0.0
+    elif v == 'clip':
+        lo, hi = np.quantile(x, r.choice([0.1, 0.25, 0.4])), np.quantile(x, r.choice([0.6, 0.75, 0.9]))
+        x = np.clip(x, lo, hi)
+    elif v == 'quant':
+        step = float(x.max() - x.min()) / r.choice([4, 8, 16])
+        if step > 0:
+            x = np.round(x / step) * step
+    return x
+
+
+def _churn(seed, n):
+    """Allocation history: allocate ~250 float arrays of every malloc size class up to n + 16 doubles (and a few longer
+    ones), fill them with random numbers, free them in random order.  Memory that the library later obtains without
+    initialising it (np.empty, np.ndarray) is then likely to hold these numbers; the history process and the clean-room
+    child use different seeds."""
+    r = np.random.RandomState(seed % (1 << 32))
+    sizes = list(range(1, n + 17, 2)) + [int(k) for k in r.randint(n, 4 * n + 64, size=16)] + [int(k) for k in r.randint(1, 130, size=32)]
+    blocks = [r.uniform(-1e3, 1e3, size=k) if k % 3 else r.standard_normal(k) * 1e6 for k in sizes]
+    order = r.permutation(len(blocks))
+    for i in order:
+        blocks[i] = None
+    del blocks
+
+
 def _env(c):
     import random
     _guard()
@@ -686,10 +746,11 @@ def _env(c):
     from bycycle.utils.dataframes import epoch_df
     from bycycle import Bycycle, BycycleGroup
     s = gen.signal(random.Random(c['seed']), kind=c['sig_kind'], max_len=400)
-    sig, fs, fr = s['sig'], s['fs'], tuple(s['f_range'])
-    n = len(sig)
+    fs, fr = s['fs'], tuple(s['f_range'])
+    base = _shaped(s['sig'], c, fs, fr)
+    n = len(base)
     other = gen.signal(random.Random(c['seed'] + 1), kind='bursty', max_len=400)['sig']
-    sig, buf2 = _stored(sig, c, fs, fr), _stored(np.resize(other, n).astype(float), dict(c, nan_k=3), fs, fr)
+    sig, buf2 = _stored(base, c, fs, fr), _stored(_shaped(np.resize(other, n).astype(float), c, fs, fr, salt=1), dict(c, nan_k=3), fs, fr)
     sig_bytes = sig.tobytes()
     thr = {'amp_fraction_threshold': 0.1, 'amp_consistency_threshold': 0.4, 'period_consistency_threshold': 0.4,
            'monotonicity_threshold': 0.6, 'min_n_cycles': 2}
@@ -715,7 +776,7 @@ def _env(c):
         # laid out so that every flattened slice has them at its two ends only (interior NaN runs are refused by the library with an
         # IndexError, and a refusal inside the library's process pool can dead-lock the pool on its way out)
         k = int(np.argmin(np.isnan(sig)))
-        fin = np.array(s['sig'], dtype=float)
+        fin = np.array(base, dtype=float)
         env['sigs2'] = np.array([fin, fin[::-1].copy()])
         env['sigs3'] = np.array([env['sigs2'], env['sigs2'][::-1]])
         env['sigs2'][0, :k] = np.nan
@@ -1078,19 +1139,28 @@ def _history(c, ref):
     for a clean-room execution of one call"""
     t0 = time.time()
     try:
-        try:
-            env, fs, fr, touched = _env(c)
-        except Exception:
-            if c.get('sigv') != 'nan_edges' or c.get('nan_k') == 2:
-                raise
-            # the library refuses some recordings with long NaN edges (argmin of an empty half-wave): not a C15 matter; the
-            # history then runs on the same recording with two missing samples on each side
-            env, fs, fr, touched = _env(dict(c, nan_k=2))
+        # the library refuses some recordings with long NaN edges (argmin of an empty half-wave) and a few with a blanked
+        # segment while the shared tables are built: not a C15 matter; the history then runs on the same recording with
+        # two missing samples on each side, resp. on the recording as generated (counted in the evidence)
+        tries = [c]
+        if c.get('sigv') == 'nan_edges' and c.get('nan_k') != 2:
+            tries.append(dict(c, nan_k=2))
+        if c.get('sigshape'):
+            tries.extend([dict(x, sigshape=None) for x in list(tries)])
+        for i, cc in enumerate(tries):
+            try:
+                env, fs, fr, touched = _env(cc)
+                break
+            except Exception:
+                if i == len(tries) - 1:
+                    raise
+        shape_refused = bool(c.get('sigshape')) and not cc.get('sigshape')
     except Exception as e:
         return {'skip': 'environment: %s %s' % (exc_kind(e), str(e)[:100])}
     keys = sorted(env)
     cur = [_h(env[k]) for k in keys]
-    out = {'keys': keys, 'env0': cur, 'steps': [], 'n_ref': 0, 'ref_s': 0.0, 'env_touched': touched}
+    churn = zlib.crc32(json.dumps(c, sort_keys=True, default=str).encode())       # allocation-churn seeds of this history
+    out = {'keys': keys, 'env0': cur, 'steps': [], 'n_ref': 0, 'ref_s': 0.0, 'env_touched': touched, 'shape_refused': shape_refused}
     for st in c['steps']:
         if st[0] == 'm':
             err = None
@@ -1101,7 +1171,8 @@ def _history(c, ref):
             cur = [_h(env[k]) for k in keys]
             out['steps'].append({'t': 'm', 'env': cur, 'err': err})
             continue
-        payload = pickle.dumps((st, env, fs, fr), protocol=4)          # the CURRENT values, before the call
+        payload = pickle.dumps((st, env, fs, fr, churn + 2 * len(out['steps']) + 1), protocol=4)   # the CURRENT values, before the call
+        _churn(churn + 2 * len(out['steps']), len(env['sig']))
         mine = _exec(st, env, fs, fr)
         now = [_h(env[k]) for k in keys]
         t1 = time.time()
@@ -1125,7 +1196,8 @@ def _history(c, ref):
 
 def _ref_exec(payload):
     """executed in R: one call on a by-value copy of the argument objects, nothing before it"""
-    st, env, fs, fr = pickle.loads(payload)
+    st, env, fs, fr, churn = pickle.loads(payload)
+    _churn(churn, len(env['sig']))
     return _exec(st, env, fs, fr)
 
 
@@ -1293,11 +1365,21 @@ def kind_of(c, o):
         _STATS['calls'] += len(_calls(o))
         _STATS['edits'] += len(o['steps']) - len(_calls(o))
         _STATS['raised'] += sum(1 for s in _calls(o) if s['exc'])
+        if o.get('shape_refused'):
+            k = c.get('sigshape')
+            _STATS.setdefault('skips', {})[k + ' (ran on the recording as generated)'] = _STATS.get('skips', {}).get(k + ' (ran on the recording as generated)', 0) + 1
+        sh = _STATS.setdefault('shapes', {}).setdefault((not o.get('shape_refused') and c.get('sigshape')) or 'as generated', {'histories': 0, 'calls': 0, 'calls_that_raised': 0})
+        sh['histories'] += 1
+        sh['calls'] += len(_calls(o))
+        sh['calls_that_raised'] += sum(1 for s in _calls(o) if s['exc'])
         k = 'signal:%s%s' % (c.get('sigv') or 'float64', '' if not c.get('fekv') else ' fek:' + json.dumps(c['fekv'], sort_keys=True))
         st = _STATS['storage'].setdefault(k, {'histories': 0, 'calls': 0, 'calls_that_raised': 0})
         st['histories'] += 1
         st['calls'] += len(_calls(o))
         st['calls_that_raised'] += sum(1 for s in _calls(o) if s['exc'])
+    if 'skip' in o:
+        k = c.get('sigshape') or 'as generated'
+        _STATS.setdefault('skips', {})[k] = _STATS.get('skips', {}).get(k, 0) + 1
     return c['kind'] + ('/skip' if 'skip' in o else '/some-call-raised' if any(s['exc'] for s in _calls(o)) else '')
 
 
@@ -1305,7 +1387,9 @@ def extra_evidence():
     return {'cleanroom': {'reference_calls': _STATS['n_ref'], 'reference_cpu_wall_s_summed_over_workers': round(_STATS['ref_s'], 1),
                           'history_cpu_wall_s_summed_over_workers': round(_STATS['hist_s'], 1), 'calls': _STATS['calls'],
                           'user_edits': _STATS['edits'], 'calls_that_raised_in_history': _STATS['raised']},
-            'signal_storage_and_fek_variants': dict(sorted(_STATS['storage'].items()))}
+            'signal_storage_and_fek_variants': dict(sorted(_STATS['storage'].items())),
+            'signal_value_variants': dict(sorted(_STATS.get('shapes', {}).items())),
+            'environments_refused_by_the_library': dict(sorted(_STATS.get('skips', {}).items()))}
 
 
 def coq_case(c, o):
